@@ -26,6 +26,8 @@ func runC03(c *core.Ctx) {
 	h.installSnapshotHandler("C03.6 install-handler")
 	c.Clause("C03.7 the leader's queue of client entries is emptied when leadership is released (no entry of an earlier leadership is ever handed to the state machine)")
 	h.releaseEmptiesHolders("C03.7 release-empties-queue")
+	// what a follower restores from is labelled with the snapshot's own index and term
+	h.snapshotFallback("C03.8 snapshot-fallback")
 }
 
 func runC07(c *core.Ctx) {
@@ -45,4 +47,7 @@ func runC07(c *core.Ctx) {
 	h.releaseEmptiesHolders("C07.5 release-empties-queue")
 	h.taskConstructors("C07.6 task-constructors")
 	h.queueDiscipline("C07.7 client-queue")
+	// success is reported once a majority stored the entry: matchIndex rises only by what the follower acknowledged
+	h.matchIndexOnlyOnSuccess("C07.8 matchIndex")
+	h.majorityOverVoters("C07.8b majority")
 }
